@@ -821,6 +821,24 @@ func (c *Ctx) byConstruction(E *ssa.Function, dataP *ssa.Parameter, T *types.Nam
 			pi = i
 		}
 	}
+	// the endpoint may be the core of an exported wrapper: the handlers call the wrapper, which hands its own parameter on
+	if sg := c.Signer("C20.O1 validate-before-use"); sg != nil && sg.Wrapper[E] != nil && pi >= 0 {
+		W := sg.Wrapper[E]
+		wi := -1
+		for _, ci := range Calls(W, func(ci ssa.CallInstruction) bool { return ci.Common().StaticCallee() == E }) {
+			if pi < len(ci.Common().Args) {
+				for i, p := range W.Params {
+					if ssa.Value(p) == ci.Common().Args[pi] {
+						wi = i
+					}
+				}
+			}
+		}
+		if wi < 0 {
+			return false
+		}
+		E, pi = W, wi
+	}
 	nsites := 0
 	for _, H := range c.HandlerMethods("C20.O1 validate-before-use") {
 		for _, ci := range Calls(H, func(ci ssa.CallInstruction) bool {
